@@ -98,8 +98,8 @@ def match_wide_from(cond, st, hooks):
     if tag(a) == "i" and len(a) == 5:
         cands += [a[3], a[4]]
     for p in cands:
-        if tag(p) in ("const", "cast", "i"):
-            continue
+        if tag(p) in ("const", "i") or (tag(p) == "cast" and not (p[1] == "IntToInt" and p[3] == ty)):
+            continue        # (an integer widened to T - `n as i64` handed on by a pointer-sized route - is a value of T like any other)
         av = mk("cast", "IntToFloat", ty, "f64", p)
         back = mk("cast", "FloatToInt", "f64", ty, av)
         eqmax = None; ge = None
